@@ -224,12 +224,20 @@ func explore(t *testing.T, p Property, job Job, out *outWriter) {
 			os.WriteFile(job.Current, fb, 0o644)
 		}
 		res := runOne(t, p, c, spec, runSeed)
+		if dbg := os.Getenv("VERIF_TRACE_IDX"); dbg != "" && dbg == fmt.Sprint(idx) {
+			fmt.Fprintln(os.Stderr, "TRACE", idx, strings.Join(traceStrings(&simkit.Result{Trace: firstN(res.Trace, 70)}, 70), " | "))
+		}
 		activeRun.desc = ""
 		if i%8 == 7 {
 			runtime.GC()
 		}
 		sum.Runs++
 		if dump != nil {
+			// the run as a replayable file (case + the scheduler specification as drawn): the self-test
+			// executes it once more alone in a fresh process and compares the hashes
+			cbs, _ := json.Marshal(c)
+			fbs, _ := json.Marshal(Failure{Property: job.Property, VerifSeed: job.VerifSeed, RunIndex: idx, RunSeed: runSeed, Tier: job.Tier, Case: cbs, Sched: spec})
+			os.WriteFile(fmt.Sprintf("%s.spec%d", job.DumpRuns, idx), fbs, 0o644)
 			fmt.Fprintf(dump, "%d %016x %016x %d %v\n", idx, res.SchedHash, res.EventHash, res.Steps, res.Violation != nil)
 			os.WriteFile(fmt.Sprintf("%s.ev%d", job.DumpRuns, idx), []byte(strings.Join(res.Events, "\n")), 0o644)
 		}
@@ -405,8 +413,12 @@ func replay(t *testing.T, p Property, job Job, out *outWriter) {
 	}
 	activeRun.desc = "replay " + job.File
 	res := runOne(t, p, c, fl.Sched, fl.RunSeed)
+	if os.Getenv("VERIF_TRACE_IDX") != "" {
+		fmt.Fprintln(os.Stderr, "TRACE replay", strings.Join(traceStrings(&simkit.Result{Trace: firstN(res.Trace, 70)}, 70), " | "))
+	}
 	activeRun.desc = ""
 	rec := map[string]any{"type": "replay", "steps": res.Steps, "violation": res.Violation, "infra": res.Infra,
+		"hashes": fmt.Sprintf("%016x %016x %d %v", res.SchedHash, res.EventHash, res.Steps, res.Violation != nil),
 		"expected": fl.Violation, "trace": traceStrings(&res, 80), "events": tail(res.Events, 80)}
 	rec["reproduced"] = res.Violation != nil && fl.Violation != nil && res.Violation.Class == fl.Violation.Class &&
 		res.Violation.Detail == fl.Violation.Detail
